@@ -52,6 +52,12 @@ INPUTS = {
     "reshape-error": GOOD.replace("2.0 -999.25\n", "2.0 -999.25 7\n").replace("WRAP. NO", "WRAP. YES").encode(),
     "decode-error": GOOD.replace("text", "t\xe9xt").encode("latin-1"),
     "lidar": b"LASF\nbinary\n",
+    # other encodings, with and without BOM, non-ASCII bytes (the encoding helpers open the file several times)
+    "utf16-le-nobom": GOOD.encode("utf-16-le"),
+    "utf16-be-nobom": GOOD.encode("utf-16-be"),
+    "utf16-bom": GOOD.encode("utf-16"),
+    "latin1-bytes": GOOD.replace("text", "t\xe9xt \x81").encode("latin-1"),
+    "large": (GOOD + "".join("%d.0 %d.5\n" % (i + 3, i) for i in range(1500))).encode(),
 }
 
 
@@ -187,6 +193,13 @@ def shapes(tmp):
                 las.read(ref, **kw)
                 return holder
             out.append(("%s/%s" % (kind, iname), call, None))
+        if iname in ("utf16-le-nobom", "utf16-be-nobom", "utf16-bom", "latin1-bytes", "decode-error"):
+            # without chardet-style autodetection and without encoding=: the ad hoc trial of candidate encodings
+            def call3(rec, path=path):
+                las = lasio.LASFile()
+                las.read(path, autodetect_encoding=False)
+                return {"las": las}
+            out.append(("read(str,no-autodetect)/%s" % iname, call3, None))
         if iname == "good":
             def call2(rec, path=path):
                 las = lasio.LASFile()
